@@ -710,6 +710,76 @@ def run_sweeps(rep, rng, sweep_cases, tag="masks"):
     return all_fails, n_thr, coq_s
 
 
+# ------------------------------------------------------------------------------------
+# (f) the mask of the partitions a CubeSet builds (tabbook stacks, CA-as-0th, numeric-summary inflation,
+#     augmented single-column filter cubes): whichever way the cube was (re)built, the mask is true
+#     exactly where the partition's own unweighted base is below the set's threshold.
+#     (after seeded change C02-6: augment_response rebuilt the cube without the threshold)
+# ------------------------------------------------------------------------------------
+
+def gen_set_case(rng, k):
+    from harness.props import c06
+    sec = rng.choice(["tabbook", "ca0", "numeric", "augment", "augment"])
+    case = {"tabbook": c06.gen_tabbook, "ca0": c06.gen_ca0, "numeric": c06.gen_numeric,
+            "augment": c06.gen_augment}[sec](rng, k)
+    case["mask_size"] = rng.choice([1, 2, 3, 5, 8])
+    case["cube_set_mask"] = True
+    return case
+
+
+def _lt(bases, ms):
+    import numpy as np
+    return np.asarray(bases, dtype=float) < ms
+
+
+def run_set_case(case):
+    """[fail dicts], number of partitions examined"""
+    import numpy as np
+    from harness.props import c06, c06_util as u6
+    sv = cu6_survey(case)
+    if case["section"] == "augment":
+        summary, _fulls, filts = c06.augment_responses(case)
+        resps = [summary] + filts
+    else:
+        resps = [u6.response(sv, al, case["meas"]) for al in case["cubes"]]
+    ms = case["mask_size"]
+    res = impl.guarded(lambda: c06.cube_set(resps, ms).partition_sets)
+    if res[0] != "ok":
+        return [{"what": "exception", "where": "CubeSet.partition_sets", "impl": res[1:]}], 0
+    fails, n = [], 0
+    for si, pset in enumerate(res[1]):
+        for ci, p in enumerate(pset):
+            kind = type(p).__name__
+            if kind == "_Strand":
+                pairs = [("min_base_size_mask", impl.get(p, "min_base_size_mask"), impl.get(p, "unweighted_bases"))]
+            elif kind == "_Slice":
+                m = p.min_base_size_mask
+                pairs = [("row_mask", impl.guarded(lambda: m.row_mask), impl.get(p, "row_unweighted_bases")),
+                         ("column_mask", impl.guarded(lambda: m.column_mask), impl.get(p, "column_unweighted_bases")),
+                         ("table_mask", impl.guarded(lambda: m.table_mask), impl.get(p, "table_unweighted_bases"))]
+            else:
+                continue
+            n += 1
+            for name, mv, bv in pairs:
+                if mv[0] != "ok" or bv[0] != "ok":
+                    fails.append({"what": "exception", "mask": name, "partition_set": si, "cube": ci,
+                                  "impl": [mv[1:] if mv[0] != "ok" else None, bv[1:] if bv[0] != "ok" else None]})
+                    continue
+                got = np.asarray(mv[1], dtype=bool)
+                exp = _lt(bv[1], ms)
+                if got.shape != exp.shape or not np.array_equal(got, exp):
+                    fails.append({"what": "cube-set-mask", "mask": name, "partition": kind, "partition_set": si,
+                                  "cube": ci, "section": case["section"], "threshold": ms,
+                                  "impl": core.jsonable(got), "unweighted_bases": core.jsonable(bv[1]),
+                                  "expected": core.jsonable(exp), "oracle": "unweighted base < threshold"})
+    return fails, n
+
+
+def cu6_survey(case):
+    from harness.props import cube_util as cu6
+    return cu6.survey_from_json(case["survey"])
+
+
 def describe(rep, case):
     rep.dist("class=" + cu.class_pair(case))
     sv = case["_sv"]
@@ -795,6 +865,21 @@ def run(tier, seed):
             ctx = {"what": f.get("what"), "class": cu.class_pair(case), "leg": "base-blocks"}
             rep.violation("impl-vs-model", cu.replayable(case), f, ctx, failing_input=not f.get("no_impl"))
     rep.cov["base_block_terms_evaluated"] = n_block_terms
+    # ---- (f) masks of the partitions of a CubeSet ----
+    n_set_cases = 40 if tier == "quick" else 600
+    rng_s = random.Random(seed + 11)
+    n_set_parts = 0
+    for k in range(n_set_cases):
+        case = gen_set_case(rng_s, k)
+        fails, npart = run_set_case(case)
+        n_set_parts += npart
+        rcase = {kk: vv for kk, vv in case.items() if not kk.startswith("_")}
+        rep.count_case(rcase, npart > 0)
+        rep.dist("cube-set-mask:" + case["section"])
+        for f in fails:
+            rep.violation("impl-vs-property", rcase, f, {"what": f.get("what"), "leg": "cube-set-mask",
+                                                         "section": case["section"]})
+    rep.cov["cube_set_partitions_mask_checked"] = n_set_parts
     rep.cov["rule"] = (
         "cases from random.Random(seed+2): same survey generator as C01 (all dimension kinds, class "
         "pairs, 1-D/2-D/3-D, weighted/unweighted, per-item MR missingness, missing categories "
@@ -837,6 +922,13 @@ def replay(path):
     if d["violation"].get("kind") in core.OBLIGATION_KINDS:  # a broken obligation, no input to re-run
         return core.replay_obligations(PID, d)
     case = d["violation"]["case"]
+    if case.get("cube_set_mask"):
+        fails, _n = run_set_case(case)
+        for f in fails:
+            print("REPLAY still fails:", json.dumps(core.jsonable(f))[:600])
+        if not fails:
+            print("REPLAY: no longer fails")
+        return 1 if fails else 0
     cu.finish_case(case)
     if case.get("subtotals"):
         fails, _ = run_subtotal_case(case)
